@@ -32,7 +32,7 @@ def build_overlay_test(pkg_dir, overlay_files, out_bin, tags="verif", extra_over
         os.makedirs(cover_dir, exist_ok=True)
         os.replace(out_bin, out_bin + ".real")
         with open(out_bin, "w") as f:
-            f.write('#!/bin/sh\nexec "%s.real" "$@" -test.gocoverdir="%s"\n' % (out_bin, cover_dir))
+            f.write('#!/bin/bash\nexec -a "%s" "%s.real" "$@" -test.gocoverdir="%s"\n' % (out_bin, out_bin, cover_dir))
         os.chmod(out_bin, 0o755)
     return out_bin
 
